@@ -108,9 +108,15 @@ def c05_script(rng, seq, name, reliable_tail=True):
         else:
             src, dst, k = s[2], s[3], int(s[4])
             ops.append("ideliver-from %s %d %s" % (src, k, dst))
+    if reliable_tail and ("initA" in seq or "initB" in seq) and seq.count("tickA") + seq.count("tickB") < 40:
+        # delivery becomes reliable: lock-step rounds of (tick = retransmission, deliver the newest datagram of each end to the other).  Whatever the
+        # schedule did before (short of timeouts: fewer than 40 ticks), both ends must complete, with each other.
+        for _ in range(8):
+            ops += ["itick a", "ideliver-from a 0 b", "itick b", "ideliver-from b 0 a"]
+        ops.append("iexpect both a b")
     # probes: whatever state was reached, sealed payload either arrives identical or is rejected
     ops += ["isend a 0 %s" % hx(rng.bytes(5)), "ideliver-from a 0 b", "isend b 0 %s" % hx(rng.bytes(7)), "ideliver-from b 0 a"]
-    return Script(name, ops, {"suite": "init"})
+    return Script(name, ops, {"suite": "init", "noshrink": True})
 
 
 def c05_random(rng, steps, name):
